@@ -216,6 +216,33 @@ impl IterableDyn {
     { unimplemented!() }
 }
 
+// the non-empty generations are non-empty, whatever is skipped (so the `None => continue` of execute_iterations never fires)
+pub proof fn lemma_non_empty_dense<T>(m: vstd::seq::Seq<vstd::seq::Seq<T>>)
+    ensures dense(non_empty(m))
+    decreases m.len()
+{
+    let p = |g: vstd::seq::Seq<T>| g.len() != 0;
+    if m.len() == 0 {
+        assert(m.filter(p).len() == 0) by { reveal(vstd::seq::Seq::filter); }
+    } else {
+        lemma_non_empty_dense(m.drop_last());
+        assert(m == m.drop_last().push(m.last()));
+        assert(m.filter(p) == (if p(m.last()) { m.drop_last().filter(p).push(m.last()) } else { m.drop_last().filter(p) })) by { reveal(vstd::seq::Seq::filter); }
+    }
+}
+pub proof fn lemma_slices_dense<T>(s: Stream<T>, c: StreamCursor)
+    ensures dense(s.slices(c))
+{
+    lemma_non_empty_dense(s.previous_values@); lemma_non_empty_dense(s.current_values@); lemma_non_empty_dense(s.new_values@);
+    let a = skip_sat(non_empty(s.previous_values@), c.previous_start_idx.0 as int);
+    let b = skip_sat(non_empty(s.current_values@), c.current_start_idx.0 as int);
+    let d = skip_sat(non_empty(s.new_values@), c.new_start_idx.0 as int);
+    assert forall|i: int| 0 <= i < (a + b + d).len() implies (#[trigger] (a + b + d)[i]).len() != 0 by {
+        if i < a.len() { assert((a + b + d)[i] == a[i]); }
+        else if i < a.len() + b.len() { assert((a + b + d)[i] == b[i - a.len()]); }
+        else { assert((a + b + d)[i] == d[i - a.len() - b.len()]); }
+    }
+}
 //@ lift air/src/execution_step/value_types/stream/recursive_stream.rs :: enum RecursiveCursorState
 //@ derive
 //@ end
@@ -305,8 +332,11 @@ impl RecursiveStreamCursor {
 //@ lift air/src/execution_step/value_types/stream/recursive_stream.rs :: impl RecursiveStreamCursor :: fn cursor_state
 //@ props C01 C13
 //@ ret r
+//@ before "let slice_iter = stream.slice_iter(self.cursor);"
+        proof { lemma_slices_dense(*stream, self.cursor); }
 //@ spec
-        ensures handed(r) == stream.slices(self.cursor), r is Continue <==> stream.slices(self.cursor).len() > 0, fresh_iterables(r)
+        ensures handed(r) == stream.slices(self.cursor), r is Continue <==> stream.slices(self.cursor).len() > 0, fresh_iterables(r),
+            dense(handed(r)),          // every generation handed out is non-empty
 //@ end
 
 // C13: the fold starts: everything from the cursor on is handed out, the cursor moves to the (raw) generation counts, and -- iff
@@ -317,7 +347,7 @@ impl RecursiveStreamCursor {
 //@ spec
         requires old(stream).fits(), old(stream).wf()
         ensures
-            handed(r) == old(stream).slices(old(self).cursor), r is Continue <==> handed(r).len() > 0, fresh_iterables(r),
+            handed(r) == old(stream).slices(old(self).cursor), r is Continue <==> handed(r).len() > 0, fresh_iterables(r), dense(handed(r)),
             final(self).cursor == old(stream).counts(),
             final(stream).previous_values == old(stream).previous_values, final(stream).current_values == old(stream).current_values,
             final(stream).new_values@ == (if r is Continue { old(stream).new_values@.push(vstd::seq::Seq::empty()) } else { old(stream).new_values@ }),
@@ -332,7 +362,7 @@ impl RecursiveStreamCursor {
 //@ spec
         requires old(stream).fits(), old(stream).wf()
         ensures
-            handed(r) == old(stream).slices(old(self).cursor), r is Continue <==> handed(r).len() > 0, fresh_iterables(r),
+            handed(r) == old(stream).slices(old(self).cursor), r is Continue <==> handed(r).len() > 0, fresh_iterables(r), dense(handed(r)),
             final(self).cursor == (StreamCursor { new_start_idx: GenerationIdx(without_empty_tail(old(stream).new_values@).len() as u32), ..old(stream).counts() }),
             final(stream).previous_values == old(stream).previous_values, final(stream).current_values == old(stream).current_values,
             final(stream).new_values@ =~= without_empty_tail(old(stream).new_values@).push(vstd::seq::Seq::empty()),
@@ -670,13 +700,18 @@ pub mod ast {
         pub uninterp spec fn id(&self) -> int;
     }
     // Display of the raw instruction: only rendered into the TraceError message
-    impl<'i> FoldStream<'i> { #[verifier::external_body] pub fn to_string(&self) -> String { unimplemented!() } }
-    impl<'i> FoldStreamMap<'i> { #[verifier::external_body] pub fn to_string(&self) -> String { unimplemented!() } }
+    // (`&impl ToString` parameters of the stream-fold helpers: the two fold instructions, rendered only into the TraceError message)
+    pub trait ToStr { fn to_string(&self) -> String; }
+    impl<'i> ToStr for FoldStream<'i> { #[verifier::external_body] fn to_string(&self) -> String { unimplemented!() } }
+    impl<'i> ToStr for FoldStreamMap<'i> { #[verifier::external_body] fn to_string(&self) -> String { unimplemented!() } }
     impl<'i> Next<'i> { #[verifier::external_body] pub fn to_string(&self) -> String { unimplemented!() } }
-    impl<'i> LambdaAST<'i> { #[verifier::external_body] pub fn to_string(&self) -> String { unimplemented!() } }
+    impl<'i> LambdaAST<'i> { #[verifier::external_body] pub fn to_string(&self) -> (r: String) ensures r@ == lambda_text(*self) { unimplemented!() } }
 }
 use ast::Instruction;
 use ast::LambdaAST;
+use ast::FoldScalarIterable;
+use ast::Next;
+use ast::ToStr;
 
 // ---------------------------------------------------------------- fold/fold_state.rs (real)
 //@ lift air/src/execution_step/instructions/fold/fold_state.rs :: enum IterableType
@@ -706,6 +741,10 @@ impl<'i> FoldState<'i> {
         ensures r == (FoldState { iterable, iterable_type, back_iteration_started: false, instr_head, last_instr_head })
 //@ end
 }
+// `Option::<Rc<T>>::clone`, spelled out (verified, not trusted)
+pub fn clone_opt_rc<T>(o: &Option<Rc<T>>) -> (r: Option<Rc<T>>)
+    ensures r == *o
+{ match o { Some(t) => Some(t.clone()), None => None } }
 pub type Iters = Map<Chars, FoldAbs>;
 pub open spec fn abs_map<'i>(m: Map<Chars, FoldState<'i>>) -> Iters { m.map_values(|f: FoldState<'i>| f.abs()) }
 
@@ -831,7 +870,7 @@ pub type Folds = Map<int, FoldFSM>;
 pub struct TraceHandler { pub folds: Ghost<Folds>, pub log: Ghost<TLog>, pub x: u8 }
 // every fold but `id` is untouched
 pub open spec fn others_same(a: Folds, b: Folds, id: int) -> bool {
-    forall|k: int| k != id ==> (a.contains_key(k) == b.contains_key(k)) && (a.contains_key(k) ==> #[trigger] b[k] == a[k])
+    forall|k: int| #![trigger a.contains_key(k)] #![trigger b.contains_key(k)] k != id ==> (a.contains_key(k) == b.contains_key(k)) && (a.contains_key(k) ==> b[k] == a[k])
 }
 impl TraceHandler {
     // real (handler.rs:143): try_merge_next_state_as_fold (unit mergers), FoldFSM::from_fold_start (unit fold_fsm: empty queue,
@@ -982,18 +1021,33 @@ impl ExecutionCtx<'_> {
 // what a child execution may do to the FoldFSMs of the folds it runs inside (ASSUMED of the opaque child, PROVED for `next`, the
 // only instruction that moves a fold's cursor): no fold disappears and no cursor moves back below where it was
 pub open spec fn fsm_monotone(a: Folds, b: Folds) -> bool {
-    forall|k: int| a.contains_key(k) ==> b.contains_key(k) && #[trigger] b[k].pos() >= a[k].pos()
+    forall|k: int| #![trigger a.contains_key(k)] #![trigger b.contains_key(k)] a.contains_key(k) ==> b.contains_key(k) && b[k].pos() >= a[k].pos()
 }
 // ... and to the streams: a stream that a (name, position) pair denotes keeps being denoted by it (scopes opened by the child are
 // closed by it: unit control_exec, `balanced`)
 pub open spec fn streams_kept(a: ExecutionCtx, b: ExecutionCtx) -> bool {
     a.streams.tbl@.dom().subset_of(b.streams.tbl@.dom()) && a.stream_maps.tbl@.dom().subset_of(b.stream_maps.tbl@.dom())
 }
+// type invariant of the context: every registered fold state iterates over a NON-EMPTY collection with its cursor inside it
+// (`peek().expect(PEEK_ALLOWED_ON_NON_EMPTY)` / `.unwrap()` in fold/utils.rs, next.rs, scalar.rs rely on it). Required and
+// re-established by every instruction: assumed of the opaque child, PROVED at every site that registers or moves a fold state.
+pub open spec fn iters_wf(m: Iters) -> bool {
+    forall|k: Chars| m.contains_key(k) ==> (#[trigger] m[k]).iterable.vals@.len() > 0 && m[k].iterable.wf()
+}
+// standing assumption about every context state (memory bound + the representation invariant unit `streams` proves of every
+// stream operation): each stream is well formed and has fewer than 2^32 - 1 generations per matrix
+pub open spec fn stream_ok(s: Stream<ValueAggregate>) -> bool { s.wf() && s.fits() && s.new_values@.len() < u32::MAX }
+pub open spec fn streams_ok(c: ExecutionCtx) -> bool {
+    &&& forall|k: StreamKey| c.streams.tbl@.contains_key(k) ==> stream_ok(#[trigger] c.streams.tbl@[k])
+    &&& forall|k: StreamKey| c.stream_maps.tbl@.contains_key(k) ==> stream_ok(#[trigger] c.stream_maps.tbl@[k])
+}
 impl<'i> Instruction<'i> {
     // the child of a compound instruction: an arbitrary instruction, known by its id
     #[verifier::external_body]
     pub fn execute(&self, exec_ctx: &mut ExecutionCtx<'i>, trace_ctx: &mut TraceHandler) -> (r: ExecutionResult<()>)
+        requires iters_wf(old(exec_ctx).iters())
         ensures
+            iters_wf(final(exec_ctx).iters()), streams_ok(*final(exec_ctx)),
             final(exec_ctx).log@ == old(exec_ctx).log@.push(
                 Ran { id: self.id(), pre: old(exec_ctx).snap(), res: r, post: final(exec_ctx).snap() }),
             final(trace_ctx).log@ == old(trace_ctx).log@.push(TEv::Child { id: self.id() }),
@@ -1019,7 +1073,7 @@ pub open spec fn fold_spec(state: FoldAbs, name: Chars, body: int, c0: Execution
         // ... left with it removed (and the scalars told that the fold ends): on every path
         &&& c1.snap() == (Snap { complete: ran.post.complete, iters: ran.post.iters.remove(name), sevs: ran.post.sevs.push(SEv::FoldEnd) })
         &&& r == ran.res
-        &&& streams_kept(c0, c1)
+        &&& streams_kept(c0, c1) && streams_ok(c1)
     }
 }
 pub proof fn lemma_abs_insert<'i>(m: Map<Chars, FoldState<'i>>, k: Chars, f: FoldState<'i>)
@@ -1037,9 +1091,397 @@ pub proof fn lemma_abs_remove<'i>(m: Map<Chars, FoldState<'i>>, k: Chars)
 //@ before "exec_ctx.scalars.remove_iterable_value(iterator);"
     proof { lemma_abs_remove(exec_ctx.scalars.iterables@, iterator@); }
 //@ spec
+    requires iters_wf(old(exec_ctx).iters()),
+        // the iterable being registered is non-empty (PROVED by the callers: fold_scalar from the constructors' contracts, fold_stream from `peek()`)
+        iterable.vals@.len() > 0, iterable.wf(),
     ensures fold_spec(
         FoldAbs { iterable: *iterable, ty: iterable_type, back_started: false, head: instruction.id(), last: opt_id(last_instruction) },
-        iterator@, instruction.id(), *old(exec_ctx), *final(exec_ctx), *old(trace_ctx), *final(trace_ctx), r)
+        iterator@, instruction.id(), *old(exec_ctx), *final(exec_ctx), *old(trace_ctx), *final(trace_ctx), r),
+        iters_wf(final(exec_ctx).iters()),
+//@ end
+
+// ================================================================ fold/utils.rs: the scalar-iterable constructors that raise errors of their own
+pub const PEEK_ALLOWED_ON_NON_EMPTY: &'static str = "peek always return elements inside fold";
+//@ lift air/src/execution_step/instructions/fold/utils.rs :: enum FoldIterableScalar
+//@ derive
+//@ end
+pub struct IterableResolvedCall { pub x: u8 }
+impl IterableResolvedCall {
+    // real: value_types/iterable/resolved_call.rs: {call_result, cursor: 0, len}; its `peek` indexes `array[cursor]` and is
+    // `unimplemented!` for a non-array result: the caller must pass an array result and its length
+    #[verifier::external_body]
+    pub fn init(call_result: ValueAggregate, len: usize) -> (r: IterableDyn)
+        requires call_result.result() matches JValue::Array(a) && a.n@ == len
+        ensures r.vals@.len() == len, r.cursor@ == 0, r.nexts@ == 0, r.prevs@ == 0
+    { unimplemented!() }
+}
+pub struct IterableLambdaResult { pub x: u8 }
+impl IterableLambdaResult {
+    // real: value_types/iterable/lambda_result.rs: {jvalues, tetraplet, provenance, cursor: 0}
+    #[verifier::external_body]
+    pub fn init(jvalues: Vec<JValue>, tetraplet: RcSecurityTetraplet, provenance: Provenance) -> (r: IterableDyn)
+        ensures r.vals@.len() == jvalues@.len(), r.cursor@ == 0, r.nexts@ == 0, r.prevs@ == 0
+    { unimplemented!() }
+}
+// real: value_types/utils.rs:23 (adds the lens text to the tetraplet)
+#[verifier::external_body]
+pub fn populate_tetraplet_with_lambda(tetraplet: SecurityTetraplet, lambda: &LambdaAST<'_>) -> SecurityTetraplet { unimplemented!() }
+
+pub open spec fn fresh_nonempty(it: IterableDyn, len: nat) -> bool {
+    it.vals@.len() == len && len > 0 && it.cursor@ == 0 && it.nexts@ == 0 && it.prevs@ == 0
+}
+// C18: folding over a non-array is the CATCHABLE error FoldIteratesOverNonArray carrying the value and the expression's text
+pub open spec fn is_non_array_error(e: ExecutionError, v: JValue, text: Chars) -> bool {
+    e matches ExecutionError::Catchable(c) && (*c matches CatchableError::FoldIteratesOverNonArray(j, s) && j == v && s@ == text)
+}
+// what a JSON value gives as a fold iterable: non-array => the catchable error; empty array => Empty (the fold is skipped);
+// otherwise a fresh iterable over exactly the array's elements
+pub open spec fn iterable_from(v: JValue, text: Chars, r: ExecutionResult<FoldIterableScalar>) -> bool {
+    match v {
+        JValue::Array(a) => if a.n@ == 0 { r matches Ok(FoldIterableScalar::Empty) }
+            else { r matches Ok(FoldIterableScalar::ScalarBased(it)) && fresh_nonempty(*it, a.n@) },
+        other => r matches Err(e) && is_non_array_error(e, other, text),
+    }
+}
+//@ lift air/src/execution_step/instructions/fold/utils.rs :: fn from_value
+//@ props C01 C18
+//@ ret r
+//@ spec
+    ensures iterable_from(call_result.result(), variable_name@, r)
+//@ end
+
+pub uninterp spec fn lambda_text(l: LambdaAST) -> Chars;
+//@ lift air/src/execution_step/instructions/fold/utils.rs :: fn from_jvalue
+//@ props C01 C18
+//@ ret r
+//@ spec
+    ensures iterable_from(*jvalue, lambda_text(*lambda), r)
+//@ end
+
+// the value a scalar name stands for when it is used as a fold iterable: a scalar's value, or the CURRENT element of an enclosing fold
+pub open spec fn scalar_jvalue<'i>(sr: ScalarRef<'i>) -> JValue {
+    match sr {
+        ScalarRef::Value(v) => v.result(),
+        ScalarRef::IterableValue(fs) => fs.iterable.vals@[fs.iterable.cursor@ as int].result(),
+    }
+}
+// (fold scalar i ..): resolution errors are handed on unchanged; otherwise `iterable_from` of the value
+pub open spec fn scalar_iterable_spec<'i>(res: ExecutionResult<ScalarRef<'i>>, name: Chars, r: ExecutionResult<FoldIterableScalar>) -> bool {
+    match res {
+        Err(e) => r matches Err(e2) && e2 == e,
+        Ok(sr) => iterable_from(scalar_jvalue(sr), name, r),
+    }
+}
+//@ lift air/src/execution_step/instructions/fold/utils.rs :: fn create_scalar_iterable
+//@ props C01 C18
+//@ ret r
+//@ before "let iterable_value = fold_state.iterable.peek().expect(PEEK_ALLOWED_ON_NON_EMPTY);"
+            proof {
+                assert(exec_ctx.iters().contains_key(variable_name@));
+                assert(exec_ctx.iters()[variable_name@] == fold_state.abs());
+            }
+//@ spec
+    requires iters_wf(exec_ctx.iters())
+    ensures scalar_iterable_spec(scalar_value(exec_ctx.scalars, variable_name@), variable_name@, r)
+//@ end
+
+// the other four constructors are not lifted (lens application, canon stream clones, HashSet de-duplication): their result is a
+// function of the clause and the (read-only) context; read from the source: every ScalarBased iterable they return is fresh and
+// NON-EMPTY (utils.rs:90 `canon_stream.is_empty()`, :107 `canon_stream_map.is_empty()` -- every element of a CanonStreamMap is a
+// valid key/value pair by construction (canon_stream_map.rs from_canon_stream) so the de-duplicated vector is non-empty --, and
+// from_jvalue above for the two lens forms)
+pub uninterp spec fn other_iterable(it: ast::FoldScalarIterable, c: ExecutionCtx) -> ExecutionResult<FoldIterableScalar>;
+pub open spec fn made_ok(r: ExecutionResult<FoldIterableScalar>) -> bool {
+    r matches Ok(FoldIterableScalar::ScalarBased(it)) ==> fresh_nonempty(*it, it.vals@.len())
+}
+#[verifier::external_body]
+pub fn create_scalar_wl_iterable<'ctx>(scalar_iterable: &ast::ScalarWithLambda<'ctx>, exec_ctx: &ExecutionCtx<'ctx>) -> (r: ExecutionResult<FoldIterableScalar>)
+    ensures r == other_iterable(ast::FoldScalarIterable::ScalarWithLambda(*scalar_iterable), *exec_ctx), made_ok(r)
+{ unimplemented!() }
+#[verifier::external_body]
+pub fn create_canon_stream_iterable_value<'ctx>(ast_canon_stream: &ast::CanonStream<'ctx>, exec_ctx: &ExecutionCtx<'ctx>) -> (r: ExecutionResult<FoldIterableScalar>)
+    ensures r == other_iterable(ast::FoldScalarIterable::CanonStream(*ast_canon_stream), *exec_ctx), made_ok(r)
+{ unimplemented!() }
+#[verifier::external_body]
+pub fn create_canon_stream_map_iterable_value(ast_canon_stream_map: &ast::CanonStreamMap<'_>, exec_ctx: &ExecutionCtx<'_>) -> (r: ExecutionResult<FoldIterableScalar>)
+    ensures r == other_iterable(ast::FoldScalarIterable::CanonStreamMap(*ast_canon_stream_map), *exec_ctx), made_ok(r)
+{ unimplemented!() }
+#[verifier::external_body]
+pub fn create_canon_stream_map_wl_iterable_value(ast_canon_stream_map: &ast::CanonStreamMapWithLambda<'_>, exec_ctx: &ExecutionCtx<'_>) -> (r: ExecutionResult<FoldIterableScalar>)
+    ensures r == other_iterable(ast::FoldScalarIterable::CanonStreamMapWithLambda(*ast_canon_stream_map), *exec_ctx), made_ok(r)
+{ unimplemented!() }
+
+// ================================================================ fold_scalar.rs :: FoldScalar::execute
+// nothing ran, nothing changed
+pub open spec fn untouched(c0: ExecutionCtx, c1: ExecutionCtx, t0: TraceHandler, t1: TraceHandler) -> bool { c1 == c0 && t1 == t0 }
+// the iterable could not be made: wait if the variable may still arrive (Ok, subgraph incomplete), fail otherwise; the body does not run
+pub open spec fn not_made(e: ExecutionError, c0: ExecutionCtx, c1: ExecutionCtx, t0: TraceHandler, t1: TraceHandler, r: ExecutionResult<()>) -> bool {
+    t1 == t0 && c1.log@ == c0.log@
+        && (if joinable_err(e) { r is Ok && !c1.subgraph_completeness && c1.same_but_complete(&c0) } else { (r matches Err(e2) && e2 == e) && c1 == c0 })
+}
+// the body ran exactly once, as `fold` runs it, over a fresh non-empty iterable of `len` elements, as a SCALAR fold
+pub open spec fn scalar_fold_ran(f: ast::FoldScalar, len: nat, c0: ExecutionCtx, c1: ExecutionCtx, t0: TraceHandler, t1: TraceHandler, r: ExecutionResult<()>) -> bool {
+    let name = f.iterator.name@;
+    let st = c1.log@[c0.log@.len() as int].pre.iters[name];
+    &&& fold_spec(st, name, f.instruction.id(), c0, c1, t0, t1, r)
+    &&& !c0.iters().contains_key(name) ==> fresh_nonempty(st.iterable, len) && st.ty is Scalar && !st.back_started
+            && st.head == f.instruction.id() && st.last == opt_id(f.last_instruction)
+}
+pub open spec fn made_outcome(f: ast::FoldScalar, res: ExecutionResult<FoldIterableScalar>, c0: ExecutionCtx, c1: ExecutionCtx, t0: TraceHandler, t1: TraceHandler, r: ExecutionResult<()>) -> bool {
+    match res {
+        Err(e) => not_made(e, c0, c1, t0, t1, r),
+        // an empty iterable: the body is NOT executed
+        Ok(FoldIterableScalar::Empty) => r is Ok && untouched(c0, c1, t0, t1),
+        Ok(FoldIterableScalar::ScalarBased(it)) => scalar_fold_ran(f, it.vals@.len(), c0, c1, t0, t1, r),
+    }
+}
+// what a JSON value gives: see `iterable_from`
+pub open spec fn value_outcome(f: ast::FoldScalar, v: JValue, text: Chars, c0: ExecutionCtx, c1: ExecutionCtx, t0: TraceHandler, t1: TraceHandler, r: ExecutionResult<()>) -> bool {
+    match v {
+        JValue::Array(a) => if a.n@ == 0 { r is Ok && untouched(c0, c1, t0, t1) } else { scalar_fold_ran(f, a.n@, c0, c1, t0, t1, r) },
+        // C18: the fold's own error is catchable (it is not joinable, so it is handed on), and the body does not run
+        other => (r matches Err(e) && is_non_array_error(e, other, text)) && untouched(c0, c1, t0, t1),
+    }
+}
+pub open spec fn fold_scalar_spec(f: ast::FoldScalar, c0: ExecutionCtx, c1: ExecutionCtx, t0: TraceHandler, t1: TraceHandler, r: ExecutionResult<()>) -> bool {
+    match f.iterable {
+        // "just do nothing on an empty array"
+        ast::FoldScalarIterable::EmptyArray => r is Ok && untouched(c0, c1, t0, t1),
+        ast::FoldScalarIterable::Scalar(s) => match scalar_value(c0.scalars, s.name@) {
+            Err(e) => not_made(e, c0, c1, t0, t1, r),
+            Ok(sr) => value_outcome(f, scalar_jvalue(sr), s.name@, c0, c1, t0, t1, r),
+        },
+        other => made_outcome(f, other_iterable(other, c0), c0, c1, t0, t1, r),
+    }
+}
+
+// (`Option<Rc<_>>::clone` has no usable specification in vstd; `clone_opt_rc` is its definition, verified -- as in control_exec.rs)
+impl<'i> ast::FoldScalar<'i> {
+//@ lift air/src/execution_step/instructions/fold_scalar.rs :: impl<'i> ExecutableInstruction<'i> for FoldScalar<'i> :: fn execute
+//@ name FoldScalar::execute
+//@ props C01 C13 C18
+//@ ret r
+//@ rewrite 1 "self.last_instruction.clone()" => "clone_opt_rc(&self.last_instruction)"
+//@ spec
+        requires iters_wf(old(exec_ctx).iters())
+        ensures fold_scalar_spec(*self, *old(exec_ctx), *final(exec_ctx), *old(trace_ctx), *final(trace_ctx), r),
+            iters_wf(final(exec_ctx).iters()),
+//@ end
+}
+
+// ================================================================ fold_stream/completeness_updater.rs
+//@ lift air/src/execution_step/instructions/fold_stream/completeness_updater.rs :: struct FoldGenerationObserver
+//@ pub-fields
+//@ derive
+//@ end
+impl FoldGenerationObserver {
+//@ lift air/src/execution_step/instructions/fold_stream/completeness_updater.rs :: impl FoldGenerationObserver :: fn new
+//@ name FoldGenerationObserver::new
+//@ props C01
+//@ ret r
+//@ spec
+        ensures !r.subgraph_complete
+//@ end
+// (Verus rejects the non-short-circuit `|=` on bools; both operands are plain values, so `a = a || b` is the same)
+//@ lift air/src/execution_step/instructions/fold_stream/completeness_updater.rs :: impl FoldGenerationObserver :: fn observe_completeness
+//@ props C01
+//@ rewrite 1 "self.subgraph_complete |= completeness;" => "self.subgraph_complete = self.subgraph_complete || completeness;"
+//@ spec
+        ensures final(self).subgraph_complete == (old(self).subgraph_complete || completeness)
+//@ end
+//@ lift air/src/execution_step/instructions/fold_stream/completeness_updater.rs :: impl FoldGenerationObserver :: fn update_completeness
+//@ props C01
+//@ spec
+        ensures final(exec_ctx).subgraph_completeness == self.subgraph_complete, final(exec_ctx).same_but_complete(old(exec_ctx))
+//@ end
+}
+
+// ================================================================ fold_stream/stream_execute_helpers.rs
+// shim (trusted) of the closure `get_mut_stream` that fold_stream.rs / fold_stream_map.rs hand to execute_with_stream:
+//   `|exec_ctx| exec_ctx.streams.get_mut(name, position).unwrap()`   /   `.. stream_maps.get_mut(name, position).unwrap().get_mut_stream_ref()`
+// (a `&dyn for<'ctx> Fn(&'ctx mut ExecutionCtx<'_>) -> &'ctx mut Stream`: closures returning `&mut` are outside Verus). The
+// `.unwrap()` is the precondition `present`; calling it is a mutable borrow of exactly that stream.
+pub struct StreamAccessor { pub key: Ghost<StreamKey>, pub is_map: Ghost<bool>, pub x: u8 }
+impl StreamAccessor {
+    pub open spec fn present(&self, c: &ExecutionCtx) -> bool {
+        if self.is_map@ { c.stream_maps.tbl@.contains_key(self.key@) } else { c.streams.tbl@.contains_key(self.key@) }
+    }
+    pub open spec fn stream(&self, c: &ExecutionCtx) -> Stream<ValueAggregate> {
+        if self.is_map@ { c.stream_maps.tbl@[self.key@] } else { c.streams.tbl@[self.key@] }
+    }
+    #[verifier::external_body]
+    pub fn for_stream(name: &str, position: AirPos) -> (r: Self) ensures r.key@ == (name@, position.0), !r.is_map@ { unimplemented!() }
+    #[verifier::external_body]
+    pub fn for_stream_map(name: &str, position: AirPos) -> (r: Self) ensures r.key@ == (name@, position.0), r.is_map@ { unimplemented!() }
+    #[verifier::external_body]
+    pub fn call<'c, 'i>(&self, exec_ctx: &'c mut ExecutionCtx<'i>) -> (r: &'c mut Stream<ValueAggregate>)
+        requires self.present(old(exec_ctx))
+        ensures *r == self.stream(old(exec_ctx)),
+            final(exec_ctx).scalars == old(exec_ctx).scalars, final(exec_ctx).log@ == old(exec_ctx).log@, final(exec_ctx).tracker == old(exec_ctx).tracker,
+            final(exec_ctx).subgraph_completeness == old(exec_ctx).subgraph_completeness,
+            final(exec_ctx).streams.x == old(exec_ctx).streams.x, final(exec_ctx).stream_maps.x == old(exec_ctx).stream_maps.x,
+            self.is_map@ ==> final(exec_ctx).streams == old(exec_ctx).streams
+                && final(exec_ctx).stream_maps.tbl@ == old(exec_ctx).stream_maps.tbl@.insert(self.key@, *final(r)),
+            !self.is_map@ ==> final(exec_ctx).stream_maps == old(exec_ctx).stream_maps
+                && final(exec_ctx).streams.tbl@ == old(exec_ctx).streams.tbl@.insert(self.key@, *final(r)),
+    { unimplemented!() }
+}
+
+//@ lift air/src/execution_step/instructions/fold_stream/stream_execute_helpers.rs :: struct FoldStreamIngredients
+//@ pub-fields
+//@ derive
+//@ rewrite 1 "struct FoldStreamIngredients" => "pub struct FoldStreamIngredients"
+//@ end
+impl<'i> FoldStreamIngredients<'i> {
+//@ lift air/src/execution_step/instructions/fold_stream/stream_execute_helpers.rs :: impl<'i> FoldStreamIngredients<'i> :: fn new
+//@ name FoldStreamIngredients::new
+//@ props C01
+//@ ret r
+//@ spec
+        ensures r == (FoldStreamIngredients { iterable_name, instruction, last_instruction, fold_id })
+//@ end
+}
+
+//@ lift air/src/execution_step/instructions/fold_stream/stream_execute_helpers.rs :: fn throw_error_if_not_catchable
+//@ props C01 C18
+//@ ret r
+//@ spec
+    ensures
+        // "Fold over streams doesn't throw an error if it's a catchable one"
+        r == (match result { Err(e) => if catchable(e) { Ok::<(), ExecutionError>(()) } else { Err::<(), ExecutionError>(e) }, Ok(_) => Ok::<(), ExecutionError>(()) })
+//@ end
+
+// the fold state `execute_iterations` registers for one handed-out generation
+pub open spec fn generation_state(it: IterableDyn, fid: u32, head: int, last: Option<int>) -> FoldAbs {
+    FoldAbs { iterable: it, ty: IterableType::Stream(fid), back_started: false, head, last }
+}
+// did any of these body executions leave the subgraph complete ("if fold finishes a run for at least one generation the fold is
+// marked as complete", docs/fold.md)
+pub open spec fn or_complete(c: Log) -> bool
+    decreases c.len()
+{
+    if c.len() == 0 { false } else { or_complete(c.drop_last()) || c.last().post.complete }
+}
+// ONE ROUND of a stream fold, as a relation between the handed-out generations and the two ghost logs it leaves (`t`: the trace
+// handler's calls, `c`: the body executions, both counted from the start of the round): for every NON-EMPTY generation, in order,
+//   meet_iteration_start(fold, position of the generation's first value)  --  the body, once, with that generation registered
+//   as the iterator's fold state  --  meet_generation_end(fold)
+// and nothing else. (`k` generations processed so far, none of them ending the round early.)
+pub open spec fn round_explained(t: TLog, c: Log, its: vstd::seq::Seq<IterableDyn>, k: int, fid: u32, name: Chars, head: int, last: Option<int>) -> bool
+    decreases k
+{
+    if k <= 0 { t.len() == 0 && c.len() == 0 }
+    else {
+        let it = its[k - 1];
+        if it.vals@.len() == 0 { round_explained(t, c, its, k - 1, fid, name, head, last) }
+        else {
+            &&& t.len() >= 3 && c.len() >= 1
+            &&& t[t.len() - 3] == (TEv::IterationStart { id: fid as int, pos: it.vals@[0].trace_pos(), ok: true })
+            &&& t[t.len() - 2] == (TEv::Child { id: head })
+            &&& t[t.len() - 1] == (TEv::GenerationEnd { id: fid as int, ok: true })
+            &&& c.last().id == head
+            &&& c.last().pre.iters.contains_key(name) && c.last().pre.iters[name] == generation_state(it, fid, head, last)
+            // a catchable failure of the body does not end the round
+            &&& !(c.last().res matches Err(e) && !catchable(e))
+            &&& round_explained(t.take(t.len() - 3), c.drop_last(), its, k - 1, fid, name, head, last)
+        }
+    }
+}
+pub open spec fn derefs(v: vstd::seq::Seq<IterableValue>) -> vstd::seq::Seq<IterableDyn> { v.map_values(|b: IterableValue| *b) }
+pub open spec fn fsm_ready(folds: Folds, fid: u32) -> bool { folds.contains_key(fid as int) ==> fsm_fresh(folds[fid as int]) }
+
+// (Verus: "for-loops do not yet support continue". The two rewrites of the loop header spell `for iterable in iterables {` as the
+//  `while` over the same vector that takes its first element each time round -- `let iterable = iterables.remove(0)` -- with a ghost
+//  counter `k`; the body, including the `continue`, is untouched.)
+//@ lift air/src/execution_step/instructions/fold_stream/stream_execute_helpers.rs :: fn execute_iterations
+//@ props C01 C13
+//@ ret r
+//@ sig 1 "&impl ToString" => "&impl ToStr"
+//@ rewrite 1 "for iterable in iterables" => "let mut iterables = iterables; let ghost mut k: int = 0; while iterables.len() > 0"
+//@ rewrite 1 "ingredients.last_instruction.clone()" => "clone_opt_rc(&ingredients.last_instruction)"
+//@ rewrite 1 "let value = match iterable.peek() {" => "let iterable = iterables.remove(0); proof { k = k + 1; assert(*iterable == its[k - 1]); assert(iterables@ =~= old_iterables.skip(k)); } let value = match iterable.peek() {"
+//@ before "let value = match iterable.peek() {"
+        let ghost t_in = trace_ctx.log@;
+        let ghost c_in = exec_ctx.log@;
+        let ghost f_in = trace_ctx.folds@;
+        proof {
+            assert(iterables@[0] == old_iterables[k]);
+            assert(its[k] == *old_iterables[k]);
+        }
+//@ before "let value_pos = value.pos();"
+        let ghost first_pos = its[k - 1].vals@[0].trace_pos();
+//@ after "generation_observer.observe_completeness(exec_ctx.is_subgraph_complete());"
+        proof {
+            let fid = ingredients.fold_id as int;
+            let ran = exec_ctx.log@.last();
+            let e1 = TEv::IterationStart { id: fid, pos: first_pos, ok: true };
+            let e2 = TEv::Child { id: ingredients.instruction.id() };
+            let e3 = TEv::GenerationEnd { id: fid, ok: true };
+            assert(trace_ctx.log@ =~= t_in.push(e1).push(e2).push(e3));
+            assert(exec_ctx.log@ =~= c_in.push(ran));
+            let t = trace_ctx.log@.skip(n0);
+            let c = exec_ctx.log@.skip(m0);
+            assert(t =~= t_in.skip(n0).push(e1).push(e2).push(e3));
+            assert(c =~= c_in.skip(m0).push(ran));
+            assert(t.take(t.len() - 3) =~= t_in.skip(n0));
+            assert(c.drop_last() =~= c_in.skip(m0));
+            assert(trace_ctx.log@.take(n0) =~= t_in.take(n0));
+            assert(exec_ctx.log@.take(m0) =~= c_in.take(m0));
+            // no fold disappeared, no cursor moved back: the other folds through `others_same` / the body's `fsm_monotone`,
+            // this fold because its cursor was 0 when the round started
+            assert forall|j: int| #![trigger old(trace_ctx).folds@.contains_key(j)] old(trace_ctx).folds@.contains_key(j) implies
+                trace_ctx.folds@.contains_key(j) && trace_ctx.folds@[j].pos() >= old(trace_ctx).folds@[j].pos() by {
+                assert(f_in.contains_key(j) && f_in[j].pos() >= old(trace_ctx).folds@[j].pos());
+            }
+        }
+//@ before "for iterable in iterables"
+    let ghost old_iterables = iterables@;
+    let ghost its = derefs(iterables@);
+    let ghost n0 = trace_ctx.log@.len() as int;
+    let ghost m0 = exec_ctx.log@.len() as int;
+    proof {
+        assert(trace_ctx.log@.skip(n0).len() == 0);
+        assert(exec_ctx.log@.skip(m0).len() == 0);
+    }
+//@ loop 0
+        invariant
+            its == derefs(old_iterables), 0 <= k <= old_iterables.len(), iterables@ =~= old_iterables.skip(k),
+            forall|i: int| 0 <= i < its.len() ==> (#[trigger] its[i]).cursor@ == 0 && its[i].wf() && its[i].vals@.len() > 0,
+            old_iterables.len() > 0, k > 0 ==> streams_ok(*exec_ctx),
+            n0 == old(trace_ctx).log@.len(), m0 == old(exec_ctx).log@.len(),
+            n0 <= trace_ctx.log@.len(), m0 <= exec_ctx.log@.len(),
+            trace_ctx.log@.take(n0) =~= old(trace_ctx).log@, exec_ctx.log@.take(m0) =~= old(exec_ctx).log@,
+            iters_wf(exec_ctx.iters()), streams_kept(*old(exec_ctx), *exec_ctx),
+            fsm_monotone(old(trace_ctx).folds@, trace_ctx.folds@),
+            fsm_ready(trace_ctx.folds@, ingredients.fold_id),
+            round_explained(trace_ctx.log@.skip(n0), exec_ctx.log@.skip(m0), its, k, ingredients.fold_id,
+                ingredients.iterable_name@, ingredients.instruction.id(), opt_id(ingredients.last_instruction)),
+            generation_observer.subgraph_complete == (old(generation_observer).subgraph_complete || or_complete(exec_ctx.log@.skip(m0))),
+        decreases iterables@.len()
+//@ spec
+    requires iters_wf(old(exec_ctx).iters()),
+        // the generations come straight from the cursor: fresh iterables (`fresh_iterables` of met_fold_start / met_iteration_end)
+        forall|i: int| 0 <= i < iterables@.len() ==> (#[trigger] iterables@[i]).cursor@ == 0 && iterables@[i].wf(),
+        // ... at least one, none of them empty (`dense(handed(..))`, `Continue <==> len > 0`)
+        iterables@.len() > 0, forall|i: int| 0 <= i < iterables@.len() ==> (#[trigger] iterables@[i]).vals@.len() > 0,
+        // the fold's FSM is where meet_fold_start / the last meet_generation_end left it
+        fsm_ready(old(trace_ctx).folds@, ingredients.fold_id),
+    ensures
+        // both logs only grow
+        old(trace_ctx).log@.is_prefix_of(final(trace_ctx).log@), old(exec_ctx).log@.is_prefix_of(final(exec_ctx).log@),
+        // C13: a round that ends normally is exactly: per non-empty generation, iteration start / body once / generation end
+        r is Ok ==> round_explained(final(trace_ctx).log@.skip(old(trace_ctx).log@.len() as int), final(exec_ctx).log@.skip(old(exec_ctx).log@.len() as int),
+                derefs(iterables@), iterables@.len() as int, ingredients.fold_id, ingredients.iterable_name@, ingredients.instruction.id(),
+                opt_id(ingredients.last_instruction))
+            && fsm_ready(final(trace_ctx).folds@, ingredients.fold_id)
+            && final(generation_observer).subgraph_complete == (old(generation_observer).subgraph_complete
+                    || or_complete(final(exec_ctx).log@.skip(old(exec_ctx).log@.len() as int)))
+            // at least one body ran (standing assumption about the context after any instruction)
+            && streams_ok(*final(exec_ctx)),
+        // "It must return only uncatchable errors"
+        r matches Err(e) ==> !catchable(e),
+        iters_wf(final(exec_ctx).iters()), streams_kept(*old(exec_ctx), *final(exec_ctx)),
+        fsm_monotone(old(trace_ctx).folds@, final(trace_ctx).folds@),
 //@ end
 
 } // verus!
